@@ -26,6 +26,7 @@ MONITORED = [
 ]
 ASSUMPTIONS = [
     'defined mobilities are positive and finite, fractions non-negative and summing to one (as pycalphad returns them); NaN entries outside the statement',
+    'mobilities below 1e-4 (SI mobilities are many orders smaller): with an undefined phase present the lower Hashin-Shtrikman term f*(max-g)*(3g) overflows to inf (result NaN) once 3*f*g > 1',
     'labyrinth factor in the documented range [1, 2] when given to the constructor or assigned directly; arbitrary when given to setLabyrinthFactor',
     'exact-field theorems vs IEEE doubles: ordering compared with rtol 1e-9 scaled by the largest mobility of the column',
 ]
@@ -51,16 +52,18 @@ def ref_rule(rule, n, fs, ms):
         return math.fsum(f * m for f, m in zip(fs, M)), 1e-9
     if rule == 1:
         t = math.fsum(f / m for f, m in zip(fs, M))
-        return (1.0 / t if t != 0 else math.inf), 1e-9      # every fraction excluded: numpy gives 1/0 = inf
+        if t < 1e-300:
+            return None         # no fraction on a defined phase (all excluded / only undefined phases present): 1/0 or 1/subnormal
+        return 1.0 / t, 1e-9
     if rule == 4:
         return math.fsum((f ** n) * m for f, m in zip(fs, M)), 1e-9
     g = max(M) if rule == 2 else min(M)
-    ak = math.fsum(f * (m - g) * 3 * g / (2 * g + m) for f, m in zip(fs, M))
+    ak = math.fsum(f * (m - g) * (3 * g) / (2 * g + m) for f, m in zip(fs, M))
     d = 1 - ak / (3 * g)
     if not (abs(d) >= 1e-10):
         return None
     rtol = max(1e-9, 1e-13 / abs(d))
-    if all(m is not None for m in ms) and abs(math.fsum(fs) - 1.0) < 1e-12:
+    if all(m is not None for m in ms) and abs(math.fsum(fs) - 1.0) <= 1e-15:   # the two forms differ by (1 - sum f) * max M
         # classical form: 1/sum f/(M+2g) - 2g   (equal to the Ak form by theorem hsGeneral_eq_H)
         return 1.0 / math.fsum(f / (m + 2 * g) for f, m in zip(fs, M)) - 2 * g, rtol
     return g + ak / d, rtol
@@ -163,7 +166,7 @@ def record_of(ht, x, T):
 # ------------------------------------------------------------------ generators
 def gen_mob(r, p, e):
     kind = r.choice(['similar', 'similar', 'decades', 'decades', 'wide', 'equal'])
-    base = 10 ** r.uniform(-30, -8)
+    base = 10 ** r.uniform(-30, -12)      # SI mobilities; every entry stays below 1e-4 (see ASSUMPTIONS)
     rows = []
     for i in range(p):
         if kind == 'equal':
@@ -223,10 +226,10 @@ def gen_post(r, db, stable):
 
 
 def gen_history_case(r):
-    ndb = r.randint(1, 5)
+    ndb = r.choice([1, 2, 3, 3, 4, 4, 5, 5])
     db = ['P%d' % i for i in range(ndb)]
     r.shuffle(db)
-    p = r.randint(1, min(4, ndb)) if r.random() < 0.9 else 1
+    p = r.randint(2, min(4, ndb)) if (ndb >= 2 and r.random() < 0.75) else 1
     stable = r.sample(db, p)
     if p >= 2 and r.random() < 0.06:
         stable[1] = stable[0]          # two composition sets of one phase (miscibility gap)
@@ -321,6 +324,15 @@ def cond_rtol(want):
     return max([1e-9] + [w[1] if w is not None else 1.0 for w in want])
 
 
+def rule_ok_on(posted, cfg, want, scale):
+    """the public averaging function of cfg applied to arrays post-processed BY THE REFERENCE: is the rule itself right?"""
+    m2, f2 = posted
+    hp = make_hp(dict(cfg, post=('none', None)))
+    with np.errstate(all='ignore'):
+        out = hp.homogenizationFunction(to_arr(m2), np.array(f2, dtype=np.float64), labyrinth_factor=hp.labyrinthFactor)
+    return values_match([float(v) for v in np.atleast_1d(out)], want, scale)
+
+
 def check_history(case, res, model_ans=None, th=None):
     """run the history on the implementation (public entry point, cache enabled); oracle + correspondence"""
     db, stable, mob, fr, cfgs, x, T = (case[k] for k in ('db', 'stable', 'mob', 'fr', 'cfgs', 'x', 'T'))
@@ -364,7 +376,7 @@ def check_history(case, res, model_ans=None, th=None):
                 res.violate('answer-depends-on-earlier-%s-evaluation' % '+'.join(sorted(set(prev_modes))),
                             'evaluating the same point again gives a different answer than on a fresh cache (earlier post-processing modes: %s)' % prev_modes,
                             dict(desc, failing_cfg=k), out, wantv)
-            elif mode == 'none':
+            elif mode == 'none' or not rule_ok_on(ref_post(db, stable, mob, fr, cfg['post']), cfg, want, scale):
                 res.violate('rule-%s-value' % RULES[cfg['rule']].replace(' ', '-'), 'averaging rule differs from the scalar reference',
                             dict(desc, failing_cfg=k), out, wantv)
             else:
@@ -493,7 +505,7 @@ def check_rules(case, res, model_ans=None, clip_ans=None):
         want = ref_rule(rid, n, fr, col)
         wants.append(want)
         if want is None:
-            res.count('outside:' + RULES[rid] + (':all-undefined' if nodef else ':ill-conditioned'))
+            res.count('outside:' + RULES[rid] + (':all-undefined' if nodef else ':no-fraction-on-defined-phase-or-ill-conditioned'))
         elif not close(v[rid], want[0], want[1], 1e-4 * X if rid in (2, 3) else 0.0):
             res.violate('rule-%s-value' % RULES[rid].replace(' ', '-'), 'public averaging function differs from the scalar reference', desc, v[rid], want[0])
     hl_rtol = wants[3][1] if wants[3] is not None else 1.0
@@ -602,8 +614,8 @@ def corr(ctx, n_hist=None, n_rules=None, oracle_only=False):
                 '2-5 configurations (rule x labyrinth factor x post-processing none/predefined/majority/exclude, 4% unknown names, 30% repeats) evaluated in sequence '
                 'through computeHomogenizationFunction on one pre-seeded HashTable; (b) rules cases: one column through the five public averaging functions; '
                 '(c) NICRAL_TDB points with the real equilibrium. non-trivial = at least 2 stable phases; distinct = full input tuple')
-    N1 = n_hist or ctx.n(2500, 60000)
-    N2 = n_rules or ctx.n(4000, 120000)
+    N1 = n_hist or ctx.n(6000, 80000)
+    N2 = n_rules or ctx.n(10000, 150000)
     hist = [gen_history_case(ctx.rng) for _ in range(N1)]
     rules = [gen_rules_case(ctx.rng) for _ in range(N2)]
     use_model = ctx.driver_ok and not oracle_only
